@@ -159,7 +159,7 @@ func Explore(t *testing.T, sc *Scenario, oracle Oracle, sh vr.ShardInfo, dir str
 		abort(dir, fmt.Sprintf("scenario %s path %v: %s", sc.Name, path, res.Err))
 		return res
 	}
-	// Dedup soundness spot check: for a deterministic sample of states (hash%256==0) the
+	// Dedup soundness spot check: for a deterministic sample of states (1 in 256 by hash) the
 	// first path is kept; when the same canonical state is reached again over a different
 	// path, both paths are expanded and must have identical successor states. A mismatch
 	// means the canonical key misses something that determines the future: harness error.
@@ -200,7 +200,7 @@ func Explore(t *testing.T, sc *Scenario, oracle Oracle, sh vr.ShardInfo, dir str
 			return
 		}
 		seen[rec.Hash] = d
-		if rec.Hash%256 == 0 {
+		if (rec.Hash>>8)%256 == 0 {
 			firstPath[rec.Hash] = rec.Path
 		}
 		queue = append(queue, rec)
